@@ -508,7 +508,17 @@ def step_cases(mall):
     # raw pkh: the key behind the hash may be unknown (dissatisfaction then unavailable although the type says d):
     # the row is claimed, the d-invariant is not
     case("RawPkH", [Clause("row", ALL, "*term matches Terminal::RawPkH(pkh) ==> (wkind(r.dissat.stack) == 0 ==> wseq(r.dissat.stack).len() == 2 && wseq(r.dissat.stack)[0] == zero::<Pk>() && (wseq(r.dissat.stack)[1] matches Placeholder::PubkeyHash(h, n) && h == pkh)) && no_locks_no_sig(r.dissat) && wkind(r.dissat.stack) != 2 && (wkind(r.sat.stack) == 0 <==> (match leaf_hash { Some(lh) => stfr.raw_pkh_tap_leaf_sig(&(pkh, lh)) is Some, None => stfr.raw_pkh_ecdsa_sig(&pkh) is Some })) && (wkind(r.sat.stack) != 0 ==> wkind(r.sat.stack) == 2) && r.sat.has_sig && no_locks(r.sat)")], claim_inv=False)
-    for v in ("Multi", "SortedMulti", "MultiA", "SortedMultiA", "Thresh"):
+    case("Multi", [
+        Clause("dsat_is_k_plus_1_zeros", P12, "*term matches Terminal::Multi(th) ==> wkind(r.dissat.stack) == 0 && wseq(r.dissat.stack) =~= zeros::<Pk>(th.spec_k() + 1) && no_locks_no_sig(r.dissat)"),
+        Clause("sat_iff_k_signatures_available", ALL, "*term matches Terminal::Multi(th) ==> (wkind(r.sat.stack) == 0 <==> count_avail(stfr, th.elems(), 0, th.spec_n() as int, None) >= th.spec_k()) && (wkind(r.sat.stack) != 0 ==> wkind(r.sat.stack) == 2)"),
+        Clause("sat_is_zero_then_k_signatures_in_key_order", ALL, "*term matches Terminal::Multi(th) ==> (wkind(r.sat.stack) == 0 ==> wseq(r.sat.stack).len() == th.spec_k() + 1 && wseq(r.sat.stack)[0] == zero::<Pk>() && sigs_in_key_order(wseq(r.sat.stack).drop_first(), stfr, th.elems(), th.spec_n() as int, None) && r.sat.has_sig) && no_locks(r.sat)"),
+    ])
+    case("MultiA", [
+        Clause("dsat_is_n_zeros", P12, "*term matches Terminal::MultiA(th) ==> wkind(r.dissat.stack) == 0 && wseq(r.dissat.stack) =~= zeros::<Pk>(th.spec_n() as int) && no_locks_no_sig(r.dissat)"),
+        Clause("sat_iff_k_signatures_available", ALL, "*term matches Terminal::MultiA(th) ==> (wkind(r.sat.stack) == 0 <==> count_avail(stfr, th.elems(), 0, th.spec_n() as int, Some(leaf_hash->Some_0)) >= th.spec_k()) && (wkind(r.sat.stack) != 0 ==> wkind(r.sat.stack) == 2)"),
+        Clause("sat_is_sig_or_zero_per_key_in_reverse_order", ALL, "*term matches Terminal::MultiA(th) ==> (wkind(r.sat.stack) == 0 ==> wseq(r.sat.stack).len() == th.spec_n() && count_nonzero(wseq(r.sat.stack)) == th.spec_k() && r.sat.has_sig && (forall|j: int| 0 <= j < th.spec_n() ==> multi_a_slot(#[trigger] wseq(r.sat.stack)[j], stfr, th.elems(), j, Some(leaf_hash->Some_0)))) && no_locks(r.sat)"),
+    ])
+    for v in ("SortedMulti", "SortedMultiA", "Thresh"):
         out.append((v, "*term is %s" % v, []))
     return out
 
@@ -519,11 +529,18 @@ def steps(vf):
     vf.raw(T.ABS)
     vf.trust("PartialEqSpecImpl for Base/Input/Dissat", "derived PartialEq on field-less enums is structural equality")
     vf.raw(STEP_SPEC)
-    vf.trust("excluded_arm (external_body)", "R9: arms Multi, SortedMulti, MultiA, SortedMultiA, Thresh of sat_dissat are not verified by Verus; nothing is assumed about their result")
+    # Satisfaction::multi / multi_a: consumed through the contracts proved in unit c02_multi (same clause text)
+    from units import c02_multi as C2
+    vf.raw(C2.STD_STUBS)
+    vf.raw(C2.nary_oracle_text())
+    vf.raw(C2.NARY_PROOF)
+    C2.multis(C2.AssumedProxy(vf, keep={"multi", "multi_a"}))
+    vf.trust("Satisfaction::{multi, multi_a} (external_body, contract only)", "callee contracts proved on the real bodies in unit c02_multi; the contract text is that unit's (emitted through AssumedProxy)")
+    vf.trust("excluded_arm (external_body)", "R9: arms SortedMulti, SortedMultiA (key sorting), Thresh of sat_dissat are not verified by Verus; nothing is assumed about their result")
     vf.trust("sat_clone (external_body)", "R13: `x.clone()` on a Satisfaction (derived Clone) returns a value equal to x")
     vf.trust("provider_consistent (precondition)", "an AssetProvider answers for one transaction: the absolute (relative) locks it confirms all have the same unit")
     P = ("C01", "C02", "C03", "C17", "C11")
-    excl = {k: "excluded_arm()" for k in ("Terminal::Multi(", "Terminal::SortedMulti(", "Terminal::MultiA(", "Terminal::SortedMultiA(", "Terminal::Thresh(")}
+    excl = {k: "excluded_arm()" for k in ("Terminal::SortedMulti(", "Terminal::SortedMultiA(", "Terminal::Thresh(")}
     with vf.block("impl<Pk: MiniscriptKey + ToPublicKey> Satisfaction<Placeholder<Pk>>"):
         for mall, name, minfn in ((True, "sat_dissat_step_mall", "Self::minimum_mall"), (False, "sat_dissat_step_nonmall", "Self::minimum")):
             M = "true" if mall else "false"
@@ -534,6 +551,8 @@ def steps(vf):
                               sub("R13-derived-clone", r"\b([lrabc]_(?:sat|dis))\.clone\(\)", r"sat_clone(&\1)")],
                     contract=Contract(
                         requires=["old(stack)@.len() >= arity(*term)", "node_typed(*term)", "provider_consistent(stfr)",
-                                  "children_inv(stfr, %s, *term, old(stack)@)" % M],
+                                  "children_inv(stfr, %s, *term, old(stack)@)" % M,
+                                  "*term matches Terminal::Multi(th) ==> th.wf()",
+                                  "*term matches Terminal::MultiA(th) ==> th.wf() && leaf_hash is Some"],
                         ensures=[Clause("frame_pops_exactly_the_children", ("C01", "C11"), "!(*term is Thresh) ==> final(stack)@ == old(stack)@.take(old(stack)@.len() - arity(*term))")]),
                     cases=step_cases(mall))
